@@ -189,6 +189,47 @@ func main() {
 		}
 	}
 
+	// isolate re-runs the units of a worker that died one at a time: the partial results of the units that finish, and a
+	// failure (clause no-crash) for each unit whose worker dies again with a fatal error inside the library.
+	isolate := func(unitNames []string, tag string, idx int) (mc.Partial, []mc.Failure) {
+		var part mc.Partial
+		part.Exhaustive = true
+		var crashed []mc.Failure
+		for k, u := range unitNames {
+			outf := filepath.Join(work, fmt.Sprintf("part-iso-%s-%d-%d.json", tag, idx, k))
+			ctx, cancel := context.WithTimeout(context.Background(), budget+5*time.Minute)
+			c := exec.CommandContext(ctx, "sh", "-c", "ulimit -v 25165824; exec \"$0\" \"$@\"", bin, "-par", "1", "-budget", budget.String(), "-out", outf, "-units", u, id, tier)
+			gmp := "2"
+			if sp.Procs > 0 {
+				gmp = strconv.Itoa(sp.Procs)
+			}
+			c.Env = append(os.Environ(), "GOMAXPROCS="+gmp)
+			var eb bytes.Buffer
+			c.Stderr, c.Stdout = &eb, &eb
+			err := c.Run()
+			cancel()
+			if err != nil {
+				if fatalInLibrary(eb.String()) {
+					crashed = append(crashed, mc.Failure{Clause: "no-crash", Unit: u, Case: "the worker process died while running this unit (twice: with its shard and alone)", Tags: []string{"crash"},
+						Expected: "the library returns (a value or an error)", Got: crashSummary(eb.String())})
+				} else {
+					part.Exhaustive = false
+					part.Caps = append(part.Caps, fmt.Sprintf("unit %s: worker failed when re-run alone (%v); not counted", u, err))
+				}
+				continue
+			}
+			b, err := os.ReadFile(outf)
+			var p mc.Partial
+			if err == nil {
+				err = json.Unmarshal(b, &p)
+			}
+			if err == nil {
+				part.Merge(p)
+			}
+		}
+		return part, crashed
+	}
+
 	runUnits := func(names []string, tag string) (mc.Partial, error) {
 		units := []unitInfo{}
 		want := map[string]bool{}
@@ -260,6 +301,24 @@ func main() {
 					if ctx.Err() != nil {
 						total.Exhaustive = false
 						total.Caps = append(total.Caps, fmt.Sprintf("worker %d hit the hard deadline; its units are not counted: %s", i, unitsFile))
+						return
+					}
+					// A fatal error of the Go runtime (out of memory, concurrent map writes, stack overflow, "all goroutines
+					// are asleep") kills the worker. When the goroutine that died was executing code of the library, that is
+					// a behaviour of the library: the units of the worker are re-run one by one to find the unit, which is
+					// reported as a violation (clause no-crash); the other units are counted as usual. A crash without
+					// library frames, or a harness panic, stays a broken check (exit 2).
+					if fatalInLibrary(eb.String()) && len(assign[i]) >= 1 && !strings.HasPrefix(tag, "iso") {
+						mu.Unlock()
+						part, crashed := isolate(assign[i], tag, i)
+						mu.Lock()
+						total.Merge(part)
+						for _, cf := range crashed {
+							total.Failures = append(total.Failures, cf)
+						}
+						if len(crashed) == 0 && firstErr == nil {
+							firstErr = fmt.Errorf("worker %d (%s) died and the crash did not recur unit by unit: %v\n%s", i, unitsFile, err, firstLines(eb.String(), 30))
+						}
 						return
 					}
 					if firstErr == nil {
@@ -346,8 +405,9 @@ func main() {
 	var unconfirmed []string
 	if len(total.Failures) > 0 {
 		unitSet := map[string]bool{}
+		isCrash := func(f mc.Failure) bool { return f.Clause == "no-crash" && len(f.Tags) == 1 && f.Tags[0] == "crash" }
 		for _, f := range total.Failures {
-			if attributed(f) < 0 {
+			if attributed(f) < 0 && !isCrash(f) { // a crash was already observed twice (with its shard and alone)
 				unitSet[f.Unit] = true
 			}
 		}
@@ -368,7 +428,7 @@ func main() {
 			}
 		}
 		for _, f := range total.Failures {
-			if attributed(f) >= 0 || seen[f.Sig()+"|"+f.Got] {
+			if attributed(f) >= 0 || isCrash(f) || seen[f.Sig()+"|"+f.Got] {
 				confirmed = append(confirmed, f)
 			} else {
 				unconfirmed = append(unconfirmed, f.Sig())
@@ -567,4 +627,64 @@ func oneLine(s string) string {
 		s = s[:400] + "…"
 	}
 	return s
+}
+
+
+// fatalInLibrary reports whether a worker's output shows a fatal error of the Go runtime (not a harness panic) whose
+// dying goroutine was executing code of the library under test.
+func fatalInLibrary(out string) bool {
+	if strings.Contains(out, "HARNESS-PANIC") {
+		return false
+	}
+	i := strings.Index(out, "fatal error:")
+	if i < 0 {
+		return false
+	}
+	rest := out[i:]
+	// the first goroutine printed after the message is the one that died
+	g := strings.Index(rest, "\ngoroutine ")
+	if g < 0 {
+		return false
+	}
+	stack := rest[g+1:]
+	if e := strings.Index(stack, "\n\n"); e >= 0 {
+		stack = stack[:e]
+	}
+	return strings.Contains(stack, "github.com/TimothyStiles/poly")
+}
+
+func firstLines(s string, n int) string {
+	lines := strings.Split(s, "\n")
+	if len(lines) > n {
+		lines = lines[:n]
+	}
+	return strings.Join(lines, "\n")
+}
+
+// crashSummary: the fatal error line and the frames of the library in the stack of the goroutine that died.
+func crashSummary(out string) string {
+	i := strings.Index(out, "fatal error:")
+	if i < 0 {
+		return firstLines(out, 6)
+	}
+	rest := out[i:]
+	lines := []string{strings.SplitN(rest, "\n", 2)[0]}
+	if g := strings.Index(rest, "\ngoroutine "); g >= 0 {
+		stack := rest[g+1:]
+		if e := strings.Index(stack, "\n\n"); e >= 0 {
+			stack = stack[:e]
+		}
+		for _, l := range strings.Split(stack, "\n") {
+			if strings.HasPrefix(l, "github.com/TimothyStiles/poly") {
+				if k := strings.Index(l, "("); k > 0 {
+					l = l[:k]
+				}
+				lines = append(lines, "  in "+l)
+				if len(lines) > 6 {
+					break
+				}
+			}
+		}
+	}
+	return strings.Join(lines, "\n")
 }
